@@ -7,6 +7,7 @@
 #define VERIF_REF_ZONE_H_
 
 #include <algorithm>
+#include <map>
 #include <set>
 #include <string>
 #include <vector>
@@ -244,13 +245,22 @@ struct RZone {
   }
 
   // --- the timeline -------------------------------------------------------
+  // (end, start) instants of the rule in year y; memoised (pure function of px and y).
+  mutable std::map<i128, std::pair<i128, i128>> rule_cache_;
+  const std::pair<i128, i128>& rule_times(i128 y) const {
+    auto it = rule_cache_.find(y);
+    if (it != rule_cache_.end()) return it->second;
+    if (rule_cache_.size() > 4096) rule_cache_.clear();
+    return rule_cache_.emplace(y, std::make_pair(rule_end_utc(px, y), rule_start_utc(px, y))).first->second;
+  }
   // Type prescribed by the footer rule at instant t.
   RType rule_at(i128 t) const {
     const i128 y0 = civil_from_secs(t + px.std_off).y;
     i128 best_t = 0;
     int best_kind = -1;  // 0 = std starts, 1 = dst starts
     for (i128 y = y0 - 1; y <= y0 + 1; ++y) {
-      const i128 cand[2] = {rule_end_utc(px, y), rule_start_utc(px, y)};
+      const std::pair<i128, i128>& rt = rule_times(y);
+      const i128 cand[2] = {rt.first, rt.second};
       for (int k = 0; k < 2; ++k) {
         if (cand[k] > t) continue;
         if (best_kind < 0 || cand[k] > best_t ||
